@@ -6,7 +6,8 @@ driver family `c15`: answers for the harness family `c15`.
 
   c15 dasm  <proc> <mx> <brk> <org-hex> <bytes-hex>   rendered line list of the model, `;` separated
   c15 spans <proc> <mx> <brk> <org-hex> <bytes-hex>   start address of every emitted unit (hex, `,` separated)
-  c15 rt    <proc> <mx> <brk> <org-hex> <bytes-hex>   per unit: bytes the assembler model emits for it (hex) or `E`
+  c15 rt    <proc> <mx> <brk> <org-hex> <bytes-hex>   per unit: bytes the assembler model emits for it (hex), or `E`
+                                                      (refused), or `E:<hex>` for a refused `LUP` group with its Merlin reading
 
 `proc` ∈ 6502 65c02 65802 65816, `mx` two binary digits, `brk` 0/1.  The rendering below is the text layer
 of `format_lines` reduced to `MNEMONIC+suffix OPERAND` (single blank), which is how the harness
@@ -60,12 +61,10 @@ def renderLine : Line → List String
     if reps > 1 then ["LUP " ++ toString reps, h, "--^"] else [h]
   | .ds _ n v => ["DS " ++ toString n ++ ",$" ++ hexN v 1]
   | .asc _ neg s zero =>
-    let d0 : Nat := if neg then 34 else 39
-    let d : Nat := if s.head? == some d0 then (if neg then 38 else 47) else d0
+    let d := delimOf neg s
     ["ASC " ++ strOf ([d] ++ s ++ [d]) ++ (if zero then ",00" else "")]
   | .dci _ neg s =>
-    let d0 : Nat := if neg then 34 else 39
-    let d : Nat := if s.head? == some d0 then (if neg then 38 else 47) else d0
+    let d := delimOf neg s
     ["DCI " ++ strOf ([d] ++ s ++ [d])]
   | .dfb _ v => ["DFB $" ++ hexN v 1]
 
@@ -91,7 +90,10 @@ def handle (toks : List String) : String :=
           let ac : ACfg := ⟨proc, primaryVer proc, m8, x8⟩
           join "," (lines.map (fun l => match lineBytes Quirks.fixed ac l.addr l with
             | .ok b => A2Verif.Hex.toHex b
-            | .error _ => "E"))
+            | .error _ =>
+              match l with
+              | .hex _ reps body => "E:" ++ A2Verif.Hex.toHex (lupBytes reps body)
+              | _ => "E"))
         else "bad-request"
       | _, _, _ => "bad-request"
     | _, _, _, _, _ => "bad-request"
